@@ -3,7 +3,7 @@
 
   Part 1 (this file): single steps and the file-object log
   * `write_after_close_refused`, `close_idempotent`, `run_closed` : after close every call is refused / a no-op and nothing changes
-  * `refused_keeps_file`                                         : a refused call changes neither the file nor any element's data / flags
+  * `refused_keeps_file`                                         : a refused call changes nothing: the state after it is the state before it
   * `rewrite_pvp_refused_mem`, `rewrite_sup_refused_mem`         : in memory a second write of a written PVP / support array is refused
   * `rewrite_pvp_real_overwrites`                                : on a real file it is accepted and overwrites (what the code does)
   * `inv1_run` with `Inv1`                                       : for every history: no write through the file object before the header; the
@@ -157,8 +157,7 @@ theorem run_closed (c : Cfg α) (s : State α) (h : s.closed = true) (ops : List
   | nil => rfl
   | cons op ops ih => simp only [run, step_closed_state c s h op, ih]
 
-/-- what a step may not touch when it refuses: the file, the position, and every element's bytes / flags / data
-    (the only thing a refused call can change is `_can_write_regular_data`: `write_pvp_array` sets it before the `item_bytes` guard) -/
+/-- the element data and the file of two states agree (everything except `_can_write_regular_data`) -/
 def SameData (s s' : State α) : Prop :=
   s'.ws = s.ws ∧ s'.pos = s.pos ∧ s'.closed = s.closed ∧ s'.hdrWritten = s.hdrWritten ∧
   ∀ k, (s'.el k).bytes = (s.el k).bytes ∧ (s'.el k).written = (s.el k).written ∧ (s'.el k).store = (s.el k).store ∧
@@ -185,59 +184,62 @@ theorem putData_refused (c : Cfg α) (s : State α) (k : Nat) (d : Blk α) (h : 
     · rename_i h1 h2; simp [h1, h2] at h
   · rename_i h1; simp [h1] at h
 
-/-- **a refused call changes neither the file nor any element** -/
-theorem refused_keeps_file (c : Cfg α) (s : State α) (op : Op α) (h : (step c s op).2 = .refused) :
-    SameData s (step c s op).1 := by
-  cases op with
-  | writePvp i d =>
-    simp only [step] at h ⊢
-    split
-    · exact SameData.refl s
-    · rename_i hb
-      rw [if_neg hb] at h
-      rw [putData_refused _ _ _ _ h]
-      exact sameData_markCanReg c s i
-  | writeSup j d =>
-    simp only [step] at h ⊢
-    split
-    · exact SameData.refl s
-    · rename_i hb
-      rw [if_neg hb] at h
-      rw [putData_refused _ _ _ _ h]
-      exact SameData.refl s
-  | writeSig i r0 d raw =>
-    simp only [step] at h ⊢
-    split
-    · exact SameData.refl s
-    · rename_i hb; rw [if_neg hb] at h; simp at h
-  | flush =>
-    simp only [step] at h ⊢
-    split
-    · exact SameData.refl s
-    · rename_i h1; rw [if_neg h1] at h; simp at h
-  | close =>
-    simp only [step] at h
-    split at h <;> simp at h
-
 theorem markCanReg_el_ne (c : Cfg α) (s : State α) (i k : Nat) (h : k ≠ c.sigIdx i) : (markCanReg c s i).el k = s.el k := by
   unfold markCanReg
   split
   · simp [setEl, h]
   · rfl
 
-/-- **in memory, a second write of a written PVP array is refused** (`item_bytes is read only after being initially defined`) -/
+/-- **a refused call changes nothing at all**: not the file, not an element, not `_can_write_regular_data` (a refused PVP rewrite is
+    stopped before the amplitude-scaling hand-off) -/
+theorem refused_keeps_file (c : Cfg α) (s : State α) (op : Op α) (h : (step c s op).2 = .refused) :
+    (step c s op).1 = s := by
+  cases op with
+  | writePvp i d =>
+    simp only [step] at h ⊢
+    split
+    · rfl
+    · rename_i hb
+      rw [if_neg hb] at h
+      exfalso
+      simp only [pvpBad, not_or, Decidable.not_not, not_and] at hb
+      obtain ⟨_, hi, _, hnb⟩ := hb
+      have hne : i ≠ c.sigIdx i := by unfold Cfg.sigIdx; omega
+      unfold putData at h
+      split at h
+      · rename_i hm
+        rw [markCanReg_el_ne c s i i hne] at h
+        split at h
+        · rename_i hbs; exact hnb hm hbs
+        · simp at h
+      · simp at h
+  | writeSup j d =>
+    simp only [step] at h ⊢
+    split
+    · rfl
+    · rename_i hb
+      rw [if_neg hb] at h
+      exact putData_refused _ _ _ _ h
+  | writeSig i r0 d raw =>
+    simp only [step] at h ⊢
+    split
+    · rfl
+    · rename_i hb; rw [if_neg hb] at h; simp at h
+  | flush =>
+    simp only [step] at h ⊢
+    split
+    · rfl
+    · rename_i h1; rw [if_neg h1] at h; simp at h
+  | close =>
+    simp only [step] at h
+    split at h <;> simp at h
+
+/-- **in memory, a second write of a written PVP array is refused** - by the guard in `write_pvp_array` itself, before anything is touched -/
 theorem rewrite_pvp_refused_mem (c : Cfg α) (s : State α) (i : Nat) (d : Blk α) (hm : c.inMem = true)
-    (hb : (s.el i).bytes.isSome = true) : (step c s (.writePvp i d)).2 = .refused := by
+    (hb : (s.el i).bytes.isSome = true) : step c s (.writePvp i d) = (s, .refused) := by
   simp only [step]
-  split
-  · rfl
-  · rename_i hbad
-    have hi : i < c.nchan := by
-      unfold pvpBad at hbad
-      exact Decidable.byContradiction (fun hn => hbad (Or.inr (Or.inl hn)))
-    have hne : i ≠ c.sigIdx i := by unfold Cfg.sigIdx; omega
-    unfold putData
-    rw [if_pos hm, markCanReg_el_ne c s i i hne, if_pos hb]
+  rw [if_pos]
+  exact Or.inr (Or.inr (Or.inr ⟨hm, hb⟩))
 
 theorem rewrite_sup_refused_mem (c : Cfg α) (s : State α) (j : Nat) (d : Blk α) (hm : c.inMem = true)
     (hb : (s.el (c.supIdx j)).bytes.isSome = true) : (step c s (.writeSup j d)).2 = .refused := by
